@@ -27,6 +27,8 @@ pub enum Ev {
 
 pub struct C09 {
     pub steady: Option<u64>,
+    /// the bar has no length (per_sec laws still apply; eta and duration are zero)
+    pub no_len: bool,
 }
 
 #[derive(Clone, Debug)]
@@ -94,7 +96,7 @@ fn rel_close(a: f64, b: f64, tol: f64) -> bool {
 impl C09 {
     fn config(&self) -> String {
         match self.steady {
-            None => "transient".into(),
+            None => if self.no_len { "transient, unknown length".into() } else { "transient".into() },
             Some(r) => format!("steady {r}/s"),
         }
     }
@@ -148,7 +150,7 @@ impl Hist for C09 {
         clock::reset();
         let mut pos = 0u64;
         let r = catch(|| {
-            let pb = ProgressBar::with_draw_target(Some(LEN), ProgressDrawTarget::hidden());
+            let pb = ProgressBar::with_draw_target(if self.no_len { None } else { Some(LEN) }, ProgressDrawTarget::hidden());
             for ev in hist {
                 apply(&pb, ev, &mut pos);
             }
@@ -178,6 +180,12 @@ impl Hist for C09 {
             if finished {
                 if x.eta != Duration::ZERO || x.duration != Duration::ZERO {
                     return bad("L6: eta/duration not zero when finished", format!("eta {:?} duration {:?}", x.eta, x.duration));
+                }
+                continue;
+            }
+            if self.no_len {
+                if x.eta != Duration::ZERO || x.duration != Duration::ZERO {
+                    return bad("L6: eta/duration not zero although the length is unknown", format!("eta {:?} duration {:?}", x.eta, x.duration));
                 }
                 continue;
             }
@@ -272,7 +280,7 @@ impl Hist for C09 {
                 let t_reset = clock::now_ns();
                 drop(dummy);
                 clock::set_ns(t_reset);
-                let fb = ProgressBar::with_draw_target(Some(LEN - p), ProgressDrawTarget::hidden());
+                let fb = ProgressBar::with_draw_target(if self.no_len { None } else { Some(LEN - p) }, ProgressDrawTarget::hidden());
                 let mut fp = 0u64;
                 for ev in &hist[k + 1..] {
                     apply(&fb, ev, &mut fp);
@@ -312,9 +320,9 @@ impl Hist for C09 {
 
 fn configs(tier: Tier) -> Vec<(C09, usize)> {
     let (d, ds) = if tier == Tier::Quick { (4, 5) } else { (5, 7) };
-    let mut v = vec![(C09 { steady: None }, d)];
+    let mut v = vec![(C09 { steady: None, no_len: false }, d), (C09 { steady: None, no_len: true }, d - 1)];
     for r in [1u64, 1_000, 1_000_000, 1_000_000_000_000] {
-        v.push((C09 { steady: Some(r) }, ds));
+        v.push((C09 { steady: Some(r), no_len: false }, ds));
     }
     v
 }
